@@ -13,7 +13,7 @@
            __main__.py (Gen/GenFrontierFlow.v: provenance of the `args` that reach run_target_function).
    Part N  fresh-symbol naming: uid() as a stream; names are (prefix, uid, counter).     *)
 From Coq Require Import String ZArith List Bool Lia.
-From HV Require Import Gen.GenCopies Gen.GenFrontierFlow Spec.IsolationSpec.
+From HV Require Import Gen.GenCopies Gen.GenCallbackCopies Gen.GenFrontierFlow Spec.IsolationSpec.
 Import ListNotations.
 Open Scope Z_scope.
 
@@ -111,6 +111,11 @@ Definition need_of (need : list (string * nat)) (f : string) : nat :=
 Definition table_ok (need : list (string * nat)) (t : list (string * copykind)) : bool :=
   forallb (fun fk => Nat.leb (need_of need (fst fk)) (field_depth fk)) t
   && forallb (fun n => existsb (fun fk => String.eqb (fst fk) (fst n)) t) need.
+
+(* a partial table (only some fields are re-established, e.g. by the return callback of a sub-call):
+   every listed field is copied at least as deep as it is mutated in place *)
+Definition fields_ok (need : list (string * nat)) (t : list (string * copykind)) : bool :=
+  forallb (fun fk => Nat.leb (need_of need (fst fk)) (field_depth fk)) t.
 
 (* the fields handed over by reference *)
 Definition shared_fields (t : list (string * copykind)) : list string :=
@@ -298,8 +303,10 @@ Fixpoint run_tests (sys : system) (ts : list test) (c : ctx) : list (list Z) * c
       (p :: ps, c2)
   end.
 
-(* run_contract: ctx.frontier_states[0] = [setup_ex]; ctx.visited.add(get_state_id(setup_ex)) *)
-Definition init_ctx (sys : system) (s0 : Z) : ctx := mkCtx [[s0]] [sid sys s0].
+(* run_contract: ctx.frontier_states[0] = [setup_ex]; whether the id of the setUp state is registered in
+   ctx.visited is what the code does (Gen/GenFrontierFlow.v, regenerated): it is not *)
+Definition init_visited (sd : Z -> Z) (s0 : Z) : list Z := if setup_state_visited then [sd s0] else [].
+Definition init_ctx (sys : system) (s0 : Z) : ctx := mkCtx [[s0]] (init_visited (sid sys) s0).
 
 Definition run_contract (sys : system) (s0 : Z) (ts : list test) : list (list Z) :=
   fst (run_tests sys ts (init_ctx sys s0)).
@@ -348,8 +355,45 @@ Section Configured.
     end.
 
   Definition run_contract_c (s0 : Z) (ts : list ctest) : list (list Z) :=
-    fst (run_tests_c ts (mkCtx [[s0]] [sd s0])).
+    fst (run_tests_c ts (mkCtx [[s0]] (init_visited sd s0))).
 End Configured.
+
+(* ---- function-level annotations.  run_tests computes the config of a test as with_devdoc(BASE, funsig):
+   the test's annotation (a config transformer) applied to a base config; body, depth and the target
+   exploration of the test are those of the resulting config.  Which BASE the next test starts from
+   -- the contract's config again, or the config of the test that has just run -- is what the code does
+   (test_cfg_base_src, regenerated from run_tests). *)
+Record atest := mkATest {
+  a_ann : Z -> Z;                  (* with_devdoc(., funsig): identity for a test without annotation *)
+  a_depth : Z -> nat;              (* max_call_depth under a config (0 for regular tests) *)
+  a_body : Z -> Z -> list Z;       (* outcome codes of the test body under a config, from a state *)
+  a_budget : option nat }.
+
+Definition resolve (base : Z) (t : atest) : ctest :=
+  let e := a_ann t base in mkCTest e (mkTest (a_depth t e) (a_body t e) (a_budget t)).
+
+Definition next_base : Z -> Z -> Z := pick_cfg test_cfg_base_src.
+
+Section Annotated.
+  Variable nb : Z -> Z -> Z.               (* contract config -> config of the test that just ran -> next base *)
+  Variable fc : Z -> Z -> Z.
+  Variable cstep : Z -> Z -> list Z.
+  Variable sd : Z -> Z.
+  Variable cc : Z.
+
+  Fixpoint run_tests_a (base : Z) (ts : list atest) (c : ctx) : list (list Z) * ctx :=
+    match ts with
+    | [] => ([], c)
+    | t :: r =>
+        let ct := resolve base t in
+        let '(p, c1) := run_test_c fc cstep sd cc ct c in
+        let '(ps, c2) := run_tests_a (nb cc (ct_cfg ct)) r c1 in
+        (p :: ps, c2)
+    end.
+
+  Definition run_contract_a (s0 : Z) (ts : list atest) : list (list Z) :=
+    fst (run_tests_a cc ts (mkCtx [[s0]] (init_visited sd s0))).
+End Annotated.
 
 (* ================================================================ Part N: naming *)
 
